@@ -38,6 +38,17 @@ func runC12(c *Ctx) {
 	c.ruleModelTable("N9-selected-dispatch-runs-the-selection-only")
 	c.only = nil
 	c.Min("N9-selected-dispatch-runs-the-selection-only", 4)
+	// a rule that faults fails: RuleEntity.Execute turns a panic of the rule body into its (named) error
+	// result (C09-R1 for this function); without that a faulting rule counts as a success and whatever the
+	// model makes depend on "nothing before failed" runs all the same
+	if f := c.MustFn("N10-a-faulting-rule-fails", "internal/base", "RuleEntity", "Execute"); f != nil {
+		ok, why := c.panicSafe(f)
+		c.Check("N10-a-faulting-rule-fails", "RuleEntity.Execute", ok, f.Pos(), "%s", why)
+	}
+	// "exactly the named rules that exist": a name exists while the name map of the installed container holds
+	// it; a removal installs a fresh container whose name map, sorted list and index hold exactly the rules
+	// not named (C04-O2 / C08-H6) -- a removed rule left in the name map is still found by every selected call
+	c.ruleFullBuildAndRemoval("N11-removed-rules-are-unknown")
 
 	fns := selectedFns(c)
 	if len(fns) < 11 {
